@@ -774,6 +774,59 @@ def rule_j(ctx):
     m = ctx.model
     f = m.func(KINT, "KernelInterpolation.setup_kernel_problem")
     ctx.instance(R)
+    # folded on symbolic supports S and values V (helpers of the class followed): what is stored must be X[np.sort(first-occurrence indices of
+    # np.unique(X))] for supports and values alike, X the (rounded) supports
+    import re as _re
+
+    from ..fold import Folder, Obj, Opaque, Raised, Refuse, Sym
+    from ..terms import nf
+    fo = Folder(symbolic=True)
+    fo.func_stack.append(f.node)
+    fo.fold_all_methods = True
+    me = Obj("self", {"__class__": "KernelInterpolation", "supports": Opaque("arr", "S"), "values": Opaque("arr", "V"), "kernel": lambda a, k: Sym("K", a, k), "num_supports": 2})
+    env = {f.params[0]: me}
+    for st_ in f.node.body:
+        try:
+            fo.stmt(st_, env)
+        except (Refuse, Raised):
+            continue
+    ts, tv = nf(me.fields.get("supports")), nf(me.fields.get("values"))
+    def _last_subscript(t):
+        """(base, index) of a term that ends in a subscript, bracket-matched from the right; None otherwise."""
+        if not t.endswith("]"):
+            return None
+        depth = 0
+        for k in range(len(t) - 1, -1, -1):
+            depth += t[k] in ")]"
+            depth -= t[k] in "(["
+            if depth == 0:
+                return {"x": t[:k], "i": t[k + 1:-1]} if t[k] == "[" and k > 0 else None
+        return None
+
+    class _M(dict):
+        group = dict.__getitem__
+    ms_ = _last_subscript(ts) if "np.unique(" in ts else None
+    ms_ = _M(ms_) if ms_ else None
+    if ms_ and ms_.group("i").startswith(("np.sort(np.unique(", "sorted(np.unique(")) and ms_.group("i").endswith(")[1])") and "return_index=True" in ms_.group("i") \
+            and f"np.unique({ms_.group('x')}," in ms_.group("i"):
+        idx = ms_.group("i")
+        ctx.ob(R, f.qname, "the stored supports are in the caller's order", True, "", f.node)
+        ctx.ob(R, f.qname, "the values are selected with the same first-occurrence indices as the supports", tv == f"V[{idx}]",
+               f"supports: {ts[:120]}; values: {tv[:120]} -- values and supports are no longer paired", f.node, evidence=True)
+        ctx.floor(R, 1)
+        return
+    if ms_ and _re.fullmatch(r"np\.unique\(.*\)\[1\]", ms_.group("i")):
+        ctx.ob(R, f.qname, "the stored supports are in the caller's order", False,
+               f"stored supports are {ts[:140]}: selected by np.unique's index vector as it comes, i.e. in the order of the sorted rows -- values given later "
+               "without supports are multiplied with the inverse kernel matrix of the sorted supports and end up at other points", f.node, evidence=True)
+        ctx.floor(R, 1)
+        return
+    if _re.fullmatch(r"np\.unique\(.*\)(\[0\])?", ts):
+        ctx.ob(R, f.qname, "the stored supports are in the caller's order", False,
+               f"stored supports are {ts[:140]}: the first result of np.unique -- the rows in sorted order; values given later without supports are "
+               "multiplied with the inverse kernel matrix of the sorted supports and end up at other points", f.node, evidence=True)
+        ctx.floor(R, 1)
+        return
     uniq = [st for st in ast.walk(f.node) if isinstance(st, ast.Assign) and isinstance(st.value, ast.Call) and norm(st.value.func) == "np.unique"]
     if not uniq:
         ctx.ob(R, f.qname, "the stored supports are in the caller's order", False, "duplicate removal through np.unique not found", f.node)
